@@ -642,6 +642,15 @@ def _schedule_rewrites(
 
         if isinstance(before, ast.AST):
             before = core.get_charnos(before, source)
+        elif before is None and getattr(after, "lineno", 1) > len(core.splitlines(source)):
+            # The new code goes after the last line, where there is no line to find the
+            # position on, and no indentation to reuse.
+            before = core.Range(len(source), len(source))
+            indent = " " * getattr(after, "col_offset", 0)
+            after = textwrap.indent(core.unparse(after).rstrip() + "\n", indent)
+            if source and not source.endswith(("\n", "\r")):
+                after = "\n" + after
+
         elif before is None:
             before = core.get_charnos(after, source)
 
